@@ -17,6 +17,7 @@ namespace
         mc::add_bfs(mn, [mn] { return std::unique_ptr<mc::Model>(new c02::MapModel<Map, c02::StdMapRefT<Cmp>, Cmp>(mn, mc::thorough() ? 3 : 2, 3, true)); });
         mc::add_bfs(sn, [sn] { return std::unique_ptr<mc::Model>(new c02::SetModel<Set, c02::StdSetRefT<Cmp>, true, Cmp>(sn, mc::thorough() ? 4 : 3)); });
         mc::add_check(mn + "_large", [mn] { c02::large_map_body<Map, c02::StdMapRefT<Cmp>, Cmp>(mn); });
+        mc::add_check(mn + "_long_history", [mn] { c02::map_long_history_body<Map, c02::StdMapRefT<Cmp>, Cmp>(mn); });
         mc::add_check(mn + "_long_initlist", [mn] { c02::long_initlist_body<Map, c02::StdMapRefT<Cmp>, Cmp>(mn); });
         mc::add_check(sn + "_large", [sn] { c02::large_set_body<Set, c02::StdSetRefT<Cmp>, Cmp>(sn); });
     }
